@@ -12,7 +12,7 @@ import (
 
 func init() { Registry["C08"] = runC08 }
 
-const explanationC08 = "Decides structural necessary conditions of C08: (R08.1) projection draws attribute names from the view — projectSingle sets projected attributes only for names ranged from the view object, starts from a copy of the view's type and keeps only required names the view contains; (R08.2) an unknown view is refused — projectSingle returns an error when the view lookup is nil before it dereferences it, and the generated viewed-type validation switches over the defined views (\"\" joined to default) with a default arm that assigns an error; (R08.3) the view name crosses the wire under one header constant on both sides (HTTP and gRPC), and only when the design does not fix the view; (R08.5) the projection memo in projectRecursive is keyed by the view that is actually used to project the nested type; (R08.6) no stale per-iteration state in the view code generators and projections (view overrides, search flags); (R08.7) a view override declared on a view attribute — including an explicit \"default\" — is copied to the projected attribute whenever present, under the ViewMetaKey constant. NOT decided: wire content for any value and recursion correctness of Project on all type graphs (needs execution)."
+const explanationC08 = "Decides structural necessary conditions of C08: (R08.1) projection draws attribute names from the view — projectSingle sets projected attributes only for names ranged from the view object, starts from a copy of the view's type and keeps only required names the view contains; (R08.2) an unknown view is refused — projectSingle returns an error when the view lookup is nil before it dereferences it, and the generated viewed-type validation switches over the defined views (\"\" joined to default) with a default arm that assigns an error; (R08.3) the view name crosses the wire under one header constant on both sides (HTTP and gRPC), and only when the design does not fix the view; (R08.5) the projection memo in projectRecursive is keyed by the view that is actually used to project the nested type; (R08.6) no stale per-iteration state in the view code generators and projections (view overrides, search flags); (R08.7) a view override declared on a view attribute — including an explicit \"default\" — is copied to the projected attribute whenever present, under the ViewMetaKey constant; (R08.8) the view attribute handed to the recursive projection is the view definition's own; (R08.9) every reader of the view Meta key selects the last value; (R08.10) the projection memo key is the full structural hash plus the view name. NOT decided: wire content for any value and recursion correctness of Project on all type graphs (needs execution)."
 
 func runC08(c *an.Ctx) string {
 	r081Projection(c)
